@@ -338,4 +338,107 @@ def _replay_cli_directory(names):
         return key(r_dir) != key(r_files), {'directory_holds': files, 'check_directory': key(r_dir), 'check_files': key(r_files)}
     return rp
 
-KERNELS = [k1, k2, k2b, k3, k4]
+
+# ---------------------------------------------------------------------------------------------- K5 every diagnostic handed to the terminal renderer is printed with its code
+@kernel('K5 cli.every_diagnostic_is_printed')
+def k5(ctx, kr):
+    from . import lspcommon as LSP
+    P = ctx.program(['ironplcc', 'ironplc-dsl', 'ironplc-parser', 'ironplc-analyzer'])
+    key = P.find_fn('ironplcc', 'cli::handle_diagnostics')
+    FILES = ['/p/a.st', '/p/b.st']; OTHER = ['', '/p/not-in-project.st']          # FileId::default() and a file the project does not hold
+    printed = []; attempts = []; st = {}
+    def st_files_new(M, fr, c, a): return Agg('SimpleFiles', [VecV()])
+    def st_files_add(M, fr, c, a):
+        f = M.deref(a[0]); f.f[0].items.append(Agg('()', [a[1], a[2]])); return len(f.f[0].items) - 1
+    def st_emit(M, fr, c, a):
+        # codespan_reporting::term::emit: Err(Error::FileMissing) — and nothing is written — when a label names a file id the `files` table does not hold
+        files = M.deref(a[2]); cd = M.deref(a[3]); n = len(files.f[0].items)
+        attempts.append(cd)
+        for l in cd.f[3].items:
+            idx = simp(l.f[1])
+            if not isinstance(idx, int) or idx >= n: return err(Agg('codespan_reporting::files::Error', []))
+        printed.append(cd); return ok(UNIT)
+    def st_label_new(M, fr, c, a): return Agg('CodeSpanLabel', [a[0], a[1], a[2], Str('')])
+    def st_label_msg(M, fr, c, a): a[0].f[3] = a[1]; return a[0]
+    def st_diag_new(M, fr, c, a): return Agg('CodeSpanDiagnostic', [a[0], none(), Str(''), VecV()])
+    def st_with(M, fr, c, a):
+        d = a[0]; what = re.search(r'::(with_(?:code|message|labels))', c).group(1)
+        if what == 'with_code': d.f[1] = some(a[1])
+        elif what == 'with_message': d.f[2] = a[1]
+        elif what == 'with_labels': d.f[3] = a[1]
+        return d
+    stubs = {r'^codespan_reporting::files::SimpleFiles::<.*>::new$': st_files_new, r'^codespan_reporting::files::SimpleFiles::<.*>::add(::<.*>)?$': st_files_add,
+             r'^codespan_reporting::term::emit': st_emit, r'^codespan_reporting::diagnostic::Label::<.*>::new(::<.*>)?$': st_label_new,
+             r'^codespan_reporting::diagnostic::Label::<.*>::with_message': st_label_msg, r'^codespan_reporting::diagnostic::Diagnostic::<.*>::new(::<.*>)?$': st_diag_new,
+             r'^codespan_reporting::diagnostic::Diagnostic::<.*>::with_(code|message|labels)': st_with,
+             r'^codespan_reporting::term::termcolor::StandardStream::(stderr|lock)$|^termcolor::StandardStream::(stderr|lock)$': lambda M, fr, c, a: Opaque('stream'),
+             r'^<codespan_reporting::term::Config as std::default::Default>::default$': lambda M, fr, c, a: Opaque('config'),
+             r'^<.*StandardStreamLock.* as std::ops::Drop>::drop$|^std::ptr::drop_in_place': lambda M, fr, c, a: UNIT,
+             r'^log::__private_api::log|^log::__private_api': lambda M, fr, c, a: UNIT}
+    M = Machine(P, stubs=stubs)
+    def label(file, lo, hi, msg): return LSP.mkstruct(P, 'Label', location=Agg('Location', [lo, hi]), file_id=Agg('FileId', [Str(file)]), message=Str(msg))
+    ALL = FILES + OTHER
+    for ndiag in (1, 2):
+        for nproj in (0, 2):
+            def entry(M):
+                printed.clear(); attempts.clear(); sel = []
+                for j in range(ndiag):
+                    v = M.fresh_bv('file%d' % j, 8); M.declare_domain(v, list(range(len(ALL))))
+                    k = 0
+                    for val in range(len(ALL) - 1):
+                        if M.branch(v == val): k = val; break
+                        k = val + 1
+                    sel.append(k)
+                st['sel'] = sel
+                srcs = VecV([Agg('()', [Agg('FileId', [Str(f)]), LSP.mkstruct(P, 'Source', file_id=Agg('FileId', [Str(f)]), data=Str('text of %s ' % f * 4), library=none())]) for f in FILES[:nproj]])
+                project = Ref(Cell(Agg('project::FileBackedProject', [srcs])))
+                ds = [LSP.mkstruct(P, 'Diagnostic', code=Str('P00%02d' % (30 + j)), description=Str('desc'), primary=label(ALL[k], 0, 0, 'label'), described=VecV(), secondary=VecV()) for j, k in enumerate(sel)]
+                return M.call_fn(key, [Ref(Cell(VecV(ds))), some(project), False])
+            def on_path(M, pr):
+                kr.paths += 1
+                if pr.inconclusive: kr.inconc(pr.inconclusive); return
+                kr.nontrivial += 1
+                sel = st['sel']; names = [ALL[k] for k in sel]
+                known = [n in FILES[:nproj] for n in names]
+                shape = '%d-files/%s' % (nproj, '+'.join('in-project' if k else ('default-file-id' if n == '' else 'unknown-file') for n, k in zip(names, known)))
+                def add(role, what, rep):
+                    if not any(f.role == role for f in kr.findings): kr.findings.append(Finding(role, what, {'diagnostic_files': names, 'project_files': FILES[:nproj]}, replay=rep))
+                rep = REPLAYS['check_empty_set']() if (nproj == 0 or not all(known)) else None
+                if pr.panic: add('C13/K5/panic/' + shape, 'rendering panics: ' + pr.panic.msg[:60], rep); return
+                def code_of(d):
+                    if d.f[1].disc != 1: return None
+                    v = d.f[1].f[0]
+                    while isinstance(v, Ref): v = M.deref(v)
+                    return v.conc() if isinstance(v, Str) else None
+                codes = [code_of(d) for d in printed]
+                want = ['P00%02d' % (30 + j) for j in range(ndiag)]
+                missing = [j for j, w in enumerate(want) if w not in codes]
+                for j in missing:
+                    kind = 'in-project' if known[j] else ('default-file-id' if names[j] == '' else 'unknown-file')
+                    add('C13/K5/diagnostic-not-printed/label-file-%s' % kind, 'handle_diagnostics is given %d diagnostic(s) %s (project holds %d files; label files %s) and prints %s: the diagnostic whose label names %s is lost' % (
+                        ndiag, want, nproj, names, codes or 'nothing', 'a project file' if known[j] else ('the default file id' if names[j] == '' else 'a file the project does not hold')), rep if not known[j] else None)
+                if missing: pass
+                elif len(kr.validate) < 1 and rep is not None: kr.validate.append(('check_empty_set', ()))
+                if len(kr.samples) < 2: kr.samples.append({'diagnostics': want, 'printed': codes, 'label_files': names})
+            M.explore(entry, on_path)
+    kr.queries += M.stats['smt']
+    kr.functions = fn_paths(P, M.encoded); kr.models = sorted(M.models_used)
+    kr.stubs = ['codespan_reporting SimpleFiles::{new,add} as a table; term::emit by contract: Err(FileMissing), nothing written, when a label names a file id the table does not hold; builders by contract; terminal stream and log macros opaque']
+    kr.bounds = '1..2 diagnostics whose primary label names (symbolic choice) a project file, the default file id or a file the project does not hold; project of 0 or 2 files; cli::handle_diagnostics with output enabled: every diagnostic is printed with its code'
+    kr.exhaustive = True
+    kr.outside = ['what codespan prints for a diagnostic it accepts']
+
+@replay_factory('check_empty_set')
+def _replay_check_empty_set():
+    def rp(ctx):
+        import tempfile, os, subprocess
+        # `check` on a set without content: analysis answers P0030, whose label carries the default file id
+        d = tempfile.mkdtemp(dir=ctx.tmp)
+        r = subprocess.run([ctx.ironplcc_path(), 'check', d], capture_output=True, timeout=60)
+        err_ = re.sub(r'\x1b\[[0-9;]*m', '', r.stderr.decode(errors='replace')); out = r.stdout.decode(errors='replace')
+        coded = re.search(r'P\d{4}', err_) is not None
+        bad = (r.returncode != 0 and not coded) or (r.returncode == 0 and 'OK' not in out)
+        return bad, {'command': 'ironplcc check <empty directory>', 'exit': r.returncode, 'stdout': out[-200:], 'stderr': err_[-300:]}
+    return rp
+
+KERNELS = [k1, k2, k2b, k3, k4, k5]
